@@ -490,6 +490,53 @@ pub fn strfn_fixed() -> Vec<String> {
     v
 }
 
+/// Width-preserving multi-byte substitutions of well-formed FIXED-WIDTH text forms: at every byte offset `k` the 2, 3 or 4
+/// ASCII bytes around it are replaced by ONE character of that many bytes - the byte length stays what a length check
+/// expects, but `k` is no longer a character boundary (a parser that checks `len()` and then cuts with `split_at` /
+/// a slice at a fixed offset panics there).  Through `dec bgpsec-key` / the JSON body of the BGPsec update / `strfn`.
+pub fn width_fixed() -> Vec<String> {
+    fn variants(seed: &str) -> Vec<String> {
+        let b = seed.as_bytes();
+        let mut out = Vec::new();
+        for (w, ch) in [(2usize, "\u{e9}"), (3, "\u{20ac}"), (4, "\u{1d518}")] {
+            for k in 1..b.len() {
+                // the character covers bytes [k + 1 - w .. k + 1) where possible, so that offset k is inside it
+                let start = (k + 1).saturating_sub(w).min(b.len().saturating_sub(w));
+                if start + w > b.len() || !(start < k && k < start + w) || !b[start..start + w].is_ascii() {
+                    continue;
+                }
+                let mut v = String::new();
+                v.push_str(&seed[..start]);
+                v.push_str(ch);
+                v.push_str(&seed[start + w..]);
+                debug_assert_eq!(v.len(), seed.len());
+                out.push(v);
+            }
+        }
+        out
+    }
+    let mut ops = Vec::new();
+    for v in variants("ROUTER-0000FDE8-17316903F0671229E8808BA8E8AB0105FA915A07") {
+        ops.push(format!("dec bgpsec-key x{}", hex::encode(v.as_bytes())));
+        let body = serde_json::to_vec(&json!({"add": [], "remove": [v]})).unwrap();
+        ops.push(format!("dec bgpsec-updates x{}", hex::encode(body)));
+    }
+    for (f, seed) in [
+        ("roa_payload", "10.0.0.0/8-24 => 64496"),
+        ("typed_prefix", "2001:db8::/32"),
+        ("as_number", "AS64496"),
+        ("announcement", "10.0.0.0/8 => 64496"),
+        ("krill_version", "0.24.0-rc1"),
+        ("roa_aggregate_key", "AS64496-1"),
+        ("object_name", "17316903F0671229E8808BA8E8AB0105FA915A07.cer"),
+    ] {
+        for v in variants(seed) {
+            ops.push(strfn_line(f, &v));
+        }
+    }
+    ops
+}
+
 /// One generated `strfn` op.
 pub fn strfn_case(r: &mut Rng) -> String {
     if r.chance(3, 5) {
